@@ -907,7 +907,7 @@ def fam_pg(ps, optk, hid, case):
     d = data_for(N, case["seed"])
     obs, nobs = f32(d["obs"]), f32(d["nobs"])
     act = jnp.asarray(d["aint"]) if disc else f32(d["act"])
-    ret = f32(rewards(N, case["seed"], "thorough")[case["r"]])
+    ret = f32(rewards(N, case["seed"], "thorough")[case["r"]] * case.get("rscale", 1.0))  # rscale: very small but non-constant returns / advantages
     gd = f32(GAMMA ** np.arange(N))
     steps = case.get("steps", 1)
     use_vf = case["pat"][0] == 1  # the "pattern" slot enumerates baseline on/off and the discount vector on/off
@@ -1146,6 +1146,9 @@ def cases_for(fam, N, tier, seed):
     elif fam == "pg":
         for space, pat, r in itertools.product(["discrete", "continuous"], patterns(2), range(nr)):
             out.append(dict(N=N, space=space, pat=list(pat), r=r, seed=seed))
+        for space in ["discrete", "continuous"]:
+            for r in range(nr):
+                out.append(dict(N=N, space=space, pat=[1, 1], r=r, seed=seed, rscale=1e-7))
         if tier == "thorough":
             for space in ["discrete", "continuous"]:
                 out.append(dict(N=N, space=space, pat=[1, 1], r=0, seed=seed, steps=2))
@@ -1207,7 +1210,7 @@ def work(item, col):
     for case in cases_for(fam, N, item["tier"], item["seed"]):
         case = dict(case, mode=mode)
         casekey = (N, tuple(case["pat"]), case["r"], case.get("H", 0), case.get("space", ""), case.get("steps", 1),
-                   case.get("epochs", 1), tuple(ps), optk, tuple(hid), mode)
+                   case.get("epochs", 1), tuple(ps), optk, tuple(hid), mode, case.get("rscale", 1.0))
         detail = dict(case=case, ps=ps, opt=optk, hid=hid)
         if mode == "jit" and (case.get("space", "") not in seen or optk == "sgd"):
             comps, make, creator = build(ps, optk, hid, case)
